@@ -47,17 +47,22 @@ Proof.
       destruct i; cbn in Hr, Es; [exact (rested_step _ _ _ _ I1 Hr Es He) | exact (rested_step _ _ _ _ I0 Hr Es He)]. }
     destruct (is_start_failure e); inversion H; subst; clear H; destruct i, j; cbn in *;
       try (apply rested_fail_start); auto.
-  - destruct g; cbn in H;
+  - assert (Hbs : Rested (begin_start (stream_of y i))).
+    { destruct Hr as (R1 & R2 & R3 & R4). unfold Rested, begin_start, workers_idle in *. destruct (stream_of y i); cbn in *. destruct valid; cbn; repeat split; auto. }
+    assert (Hbp : forall ab, Rested (begin_stop ab (stream_of y i))).
+    { intros ab. destruct Hr as (R1 & R2 & R3 & R4). unfold Rested, begin_stop, workers_idle in *. destruct (stream_of y i); cbn in *. destruct valid; cbn; repeat split; auto. }
+    assert (Hes : Rested (end_stop (stream_of y i))).
+    { destruct Hr as (R1 & R2 & R3 & R4). unfold Rested, end_stop, workers_idle in *. destruct (stream_of y i); cbn in *. repeat split; auto. }
+    assert (Hcf : forall v n, Rested (stream_of y i <| valid := v |> <| maxn := n |>)).
+    { intros v n. destruct Hr as (R1 & R2 & R3 & R4). unfold Rested, workers_idle in *. destruct (stream_of y i); cbn in *. repeat split; auto. }
+    assert (Hrs : Rested (set c_start (fun _ => TNone) (stream_of y i))).
+    { destruct Hr as (R1 & R2 & R3 & R4). unfold Rested, workers_idle in *. destruct (stream_of y i); cbn in *. repeat split; auto. }
+    pose proof (rested_fail_start _ Hr) as Hfs.
+    destruct y as [s0 s1 ap ic]. destruct g; cbn in H; cbv zeta in H; destruct ic; try discriminate H;
       repeat match type of H with
-             | Some _ = Some _ => inversion H; subst; clear H
-             | None = Some _ => discriminate H
-             | context [match ?x with _ => _ end] => destruct x eqn:?
-             | context [if ?x then _ else _] => destruct x eqn:?
-             end; try exact Hr;
-      destruct i; cbn in *; destruct Hr as (R1 & R2 & R3 & R4);
-      unfold Rested, begin_start, begin_stop, end_stop, workers_idle in *;
-      repeat match goal with |- context [valid ?s] => destruct (valid s) end; cbn in *; repeat split; auto;
-      try (destruct (c_start (st0 y)); auto; discriminate); try (destruct (c_start (st1 y)); auto; discriminate).
+             | (if ?b then _ else _) = Some _ => destruct b
+             | (match ?x with _ => _ end) = Some _ => destruct x
+             end; try discriminate H; inversion H; subst; clear H; destruct i; cbn in *; auto.
 Qed.
 
 Lemma rested_run tr : forall y y' i,
